@@ -201,6 +201,14 @@ func HarnessC18Reconcile() {
 			}
 		}
 		for _, g := range rule.APIGroups {
+			if g == group || g == "member.example.org" || g == "" || g == "coordination.k8s.io" {
+				continue
+			}
+			// only the request can have brought this group in: it is granted as it
+			// was put to the allow list, with the requested verbs and no others
+			zz.Assert("request-granted-with-the-requested-verbs-only", len(rule.Verbs) == 1 && rule.Verbs[0] == "get")
+		}
+		for _, g := range rule.APIGroups {
 			if g != group {
 				continue
 			}
